@@ -38,6 +38,51 @@ Inductive xout := XE (tag : xtag) (attrs : list aval) (kids : list xout).
 (* WriteOptions: id_prefix (0 = None or empty), preserve_text *)
 Record wopts := { w_prefix : N; w_preserve_text : bool }.
 
+(* what makes has_xlink answer true at one node *)
+Definition xlink_trigger (n : node) : bool :=
+  match n with
+  | NGroup g => existsb (fun f => existsb (fun pr => match p_img pr with Some _ => true | None => false end) (f_prims f))
+                        (g_filters g)
+  | NImage _ _ => true
+  | NText _ _ chunks => existsb (fun c => match c with CH (Some _) _ => true | _ => false end) chunks
+  | NPath _ _ _ => false
+  end.
+
+(* writer.rs::has_xlink with its early returns; hx_gsub = Group::subroots, hx_paint = Path::subroots *)
+Fixpoint hx_node (n : node) {struct n} : bool :=
+  match n with
+  | NGroup g =>
+      xlink_trigger n                                             (* filters containing an feImage *)
+      || match g with G _ _ _ m _ _ => match m with Some d => hx_maskchain_d d | None => false end end
+                                                                  (* `while let Some(m) = mask { has_xlink(&m.root) .. }` *)
+      || hx_group g                                               (* `if has_xlink(g) { return true }` *)
+      || hx_gsub g                                                (* node.subroots(..) *)
+  | NPath _ fl st => hx_paint fl || hx_paint st                   (* only the sub-roots *)
+  | NImage _ _ => true                                            (* `Node::Image(_) => return true` *)
+  | NText _ flat chunks => xlink_trigger n || hx_group flat       (* textPath chunk; Text::subroots = flattened *)
+  end
+with hx_group (g : group) {struct g} : bool :=
+  match g with
+  | G _ _ _ _ _ kids => (fix go (l : list node) : bool := match l with [] => false | k :: r => hx_node k || go r end) kids
+  end
+with hx_gsub (g : group) {struct g} : bool :=
+  match g with
+  | G _ _ clip mask filters _ =>
+      match clip with Some c => hx_clipchain c | None => false end ||
+      match mask with Some m => hx_maskchain_d m | None => false end ||
+      (fix go (l : list filterdef) : bool := match l with [] => false | f :: r => hx_filter f || go r end) filters
+  end
+with hx_maskchain_d (m : maskdef) {struct m} : bool :=
+  match m with MD _ _ nx r => hx_group r || match nx with Some m' => hx_maskchain_d m' | None => false end end
+with hx_clipchain (c : clipdef) {struct c} : bool :=
+  match c with CD _ _ nx r => hx_group r || match nx with Some c' => hx_clipchain c' | None => false end end
+with hx_filter (f : filterdef) {struct f} : bool :=
+  match f with
+  | FD _ _ prims => (fix go (l : list prim) : bool :=
+                       match l with [] => false | p :: r => (match p with PR _ _ _ _ img => match img with Some g => hx_group g | None => false end end) || go r end) prims
+  end
+with hx_paint (p : paint) {struct p} : bool := match p with PPat _ _ r => hx_group r | _ => false end.
+
 Section Write.
   Variable o : wopts.
   Let p := w_prefix o.
@@ -175,19 +220,20 @@ Section Write.
     write_filters (t_filts t) [] ++
     map write_clip (t_clips t) ++ map write_mask (t_masks t).
 
-  (* has_xlink: true iff some node reached by its traversal (children of groups, roots of the whole mask
-     chain, Node::subroots) is an image, a text with a text path, or a group with a filter that contains an
-     feImage.  The early returns of the Rust loop do not change the disjunction. *)
-  Definition xlink_trigger (n : node) : bool :=
-    match n with
-    | NGroup g => existsb (fun f => existsb (fun pr => match p_img pr with Some _ => true | None => false end) (f_prims f))
-                          (g_filters g)
-    | NImage _ _ => true
-    | NText _ _ chunks => existsb (fun c => match c with CH (Some _) _ => true | _ => false end) chunks
-    | NPath _ _ _ => false
-    end.
-  Definition has_xlink (root : group) : bool :=
-    walk_group false (fun n b => b || xlink_trigger n) root false.
+  (* has_xlink, statement by statement (a `return true` inside the loop is the left operand of `||`):
+       for node in &parent.children {
+           match node {
+               Group(g) => { filters with an feImage primitive -> true;
+                             for every mask of the chain: has_xlink(&m.root) -> true;
+                             has_xlink(g) -> true }
+               Image(_) => return true,
+               Text(t)  => a chunk on a text path -> true,
+               _ => {}
+           }
+           node.subroots(|root| present |= has_xlink(root)); present -> true
+       }
+       false *)
+  Definition has_xlink (root : group) : bool := hx_group root.
 
   (* convert *)
   Definition write (t : tree) : xout :=
